@@ -285,6 +285,41 @@ func (s *Solver) Check(tb *TB, extra []*Term, wantModel []*Term) (Verdict, map[*
 	return v, model
 }
 
+// CheckHard is Check for proof obligations: an unknown answer (time-out on a loaded machine)
+// is retried with four times the time limit, and then put to z3 5.x and cvc5 as a
+// self-contained script. Only an unsat answer of those is used (a model is needed for sat).
+func (s *Solver) CheckHard(tb *TB, extra []*Term, wantModel []*Term) (Verdict, map[*Term]*big.Int) {
+	v, m := s.Check(tb, extra, wantModel)
+	if v != Unknown {
+		return v, m
+	}
+	s.raw(fmt.Sprintf("(set-option :timeout %d)", 4*s.timeout))
+	v, m = s.Check(tb, extra, wantModel)
+	s.raw(fmt.Sprintf("(set-option :timeout %d)", s.timeout))
+	if v != Unknown {
+		s.nUnk--
+		return v, m
+	}
+	f, err := os.CreateTemp("", "symgo_q_*.smt2")
+	if err != nil {
+		return Unknown, nil
+	}
+	defer os.Remove(f.Name())
+	io.WriteString(f, "(set-logic ALL)\n"+s.Standalone(tb, extra))
+	f.Close()
+	secs := 8 * s.timeout / 1000
+	for _, argv := range [][]string{{"z3-new", fmt.Sprintf("-T:%d", secs), f.Name()}, {"cvc5", "-q", fmt.Sprintf("--tlimit=%d", secs*1000), f.Name()}} {
+		out, _ := exec.Command(argv[0], argv[1:]...).CombinedOutput()
+		txt := strings.TrimSpace(string(out))
+		if txt == "unsat" {
+			s.nUnk -= 2
+			s.nUnsat++
+			return Unsat, nil
+		}
+	}
+	return Unknown, nil
+}
+
 // restartInPath restarts a dead solver and replays the permanent script of the path.
 func (s *Solver) restartInPath() {
 	script := s.script.String()
